@@ -173,10 +173,25 @@ func ResourcePayload(t *rapid.T, ts *TypeSpec, o PayloadOpts) *PayloadCase {
 
 	if o.UnknownPerTen > 0 && rapid.IntRange(0, 9).Draw(t, "unknown") < o.UnknownPerTen {
 		p.Unknown = "nope"
-		if rapid.Bool().Draw(t, "unknown-attr") {
+
+		// A name the type does not have, or a name it has under the other
+		// member: a relationship among the attributes, an attribute among the
+		// relationships (whether or not it also appears where it belongs).
+		relForm := func() string {
+			return rapid.SampledFrom([]string{`{"data":null}`, `{"links":{"self":"/x"}}`, `{"meta":{}}`, `{}`, `{"data":[]}`}).Draw(t, "unknown-rel-form")
+		}
+
+		switch kind := rapid.IntRange(0, 3).Draw(t, "unknown-kind"); {
+		case kind == 0 && len(ts.Rels) > 0:
+			p.Unknown = ts.Rels[rapid.IntRange(0, len(ts.Rels)-1).Draw(t, "misplaced-rel")].FromName
+			attrParts = append(attrParts, QuoteJSON(p.Unknown)+":"+rapid.SampledFrom([]string{"1", `"x"`, "null", `{"data":null}`}).Draw(t, "misplaced-rel-value"))
+		case kind == 1 && len(ts.Attrs) > 0:
+			p.Unknown = ts.Attrs[rapid.IntRange(0, len(ts.Attrs)-1).Draw(t, "misplaced-attr")].Name
+			relParts = append(relParts, QuoteJSON(p.Unknown)+":"+relForm())
+		case rapid.Bool().Draw(t, "unknown-attr"):
 			attrParts = append(attrParts, `"nope":1`)
-		} else {
-			relParts = append(relParts, `"nope":`+rapid.SampledFrom([]string{`{"data":null}`, `{"links":{"self":"/x"}}`, `{"meta":{}}`, `{}`, `{"data":[]}`}).Draw(t, "unknown-rel-form"))
+		default:
+			relParts = append(relParts, `"nope":`+relForm())
 		}
 	}
 
